@@ -247,10 +247,6 @@ func init() {
 	})
 
 	// ----- sync -----
-	reg("(*sync.Mutex).Lock|(*sync.Mutex).Unlock|(*sync.RWMutex).Lock|(*sync.RWMutex).Unlock|(*sync.RWMutex).RLock|(*sync.RWMutex).RUnlock|(*sync.WaitGroup).Add|(*sync.WaitGroup).Done|(*sync.WaitGroup).Wait", func(m *M, fn *ssa.Function, a []Value, r ssa.Value) Value {
-		m.ex.noteAssumption("sequential execution: mutexes/waitgroups are no-ops")
-		return nil
-	})
 	reg("sync.NewCond", func(m *M, fn *ssa.Function, a []Value, r ssa.Value) Value {
 		t := fn.Signature.Results().At(0).Type().(*types.Pointer).Elem()
 		id := m.st.alloc(zero(t), t)
